@@ -82,7 +82,7 @@ impl Check for C08 {
         "C08"
     }
     fn plan(&self, tier: Tier) -> Plan {
-        Plan { cases: if tier == Tier::Quick { 400 } else { 8000 }, max_len: 6144 }
+        Plan { cases: if tier == Tier::Quick { 2_000 } else { 30_000 }, max_len: 6144 }
     }
     fn isolated(&self) -> bool {
         true
